@@ -71,7 +71,7 @@ func runC12(w *mon.W) {
 		alpha string
 		maxN  int
 	}
-	spaces := []space{{"aB", w.Pick(14, 20)}, {"ACG", w.Pick(9, 13)}, {"ACGT", w.Pick(7, 11)}}
+	spaces := []space{{"aB", w.Pick(17, 21)}, {"ACG", w.Pick(11, 13)}, {"ACGT", w.Pick(9, 11)}}
 	const blk = 8192
 	idx := 0
 	var parts []string
@@ -102,7 +102,7 @@ func runC12(w *mon.W) {
 	w.Extra("exhaustive", false)
 
 	// structured long strings
-	nStruct := w.Pick(2000, 6000)
+	nStruct := w.Pick(4000, 12000)
 	maxLen := w.Pick(100000, 1000000)
 	for i := 0; i < nStruct; i++ {
 		id := fmt.Sprintf("struct-%d", i)
